@@ -18,8 +18,19 @@ class Summary:
     line: int = 0
 
 
+def _mentions_size(t: Any) -> bool:
+    if isinstance(t, tuple) and t:
+        if t[0] == "call" and (dotted(t[1]) in SIZERS or dotted(t[1]) == "len"):
+            return True
+        return any(_mentions_size(x) for x in t[1:] if isinstance(x, tuple))
+    return False
+
+
 def canon_atom(atom: Sym) -> Sym:
     """atoms that talk about lengths are mapped to the sizer vocabulary"""
+    if (atom[0] == "acc" or (atom[0] == "op" and atom[1] == "+")) and _mentions_size(atom):
+        # the truth of a sum of sizes (a payload size added up by hand)
+        return ("truthy-len", size_term(atom))
     if atom[0] == "call":
         name = dotted(atom[1])
         if name == "len" and len(atom[2]) == 1:
@@ -123,8 +134,45 @@ def _arith_verdict(wt: Sym, st: Sym) -> str:
     return verdict
 
 
+# proto types written length-delimited (set by the rule that owns the source model); enables the conditional unfolding below
+LEN_DELIM_TYPES: Optional[set] = None
+
+
+def _unfold_len_single(val: Dict[Sym, bool], t: Any) -> Any:
+    """`_len_single(n, <const length-delimited type>, V, serialize_empty=False, wraps=<const>)` is 0 when its payload is empty
+    and tag + size_varint(payload) + payload otherwise: under a valuation that decides the truth of that payload size the call
+    is replaced by the branch taken (the sibling may spell the branch out instead of calling the helper)"""
+    if not isinstance(t, tuple) or not t:
+        return t
+    if t[0] == "sum":
+        parts: List[Sym] = []
+        for x in t[1]:
+            y = _unfold_len_single(val, x)
+            if isinstance(y, tuple) and y and y[0] == "sum":
+                parts.extend(y[1])
+            else:
+                parts.append(y)
+        return _sum(parts)
+    if t[0] == "acc":
+        return ("acc", t[1], _unfold_len_single(val, t[2]))
+    if t[0] == "call" and t[1] == N("_len_single") and len(t[2]) == 3 and LEN_DELIM_TYPES is not None:
+        kw = dict(t[3])
+        ty, se, wr = t[2][1], kw.get("serialize_empty", ("c", False)), kw.get("wraps", ("c", ""))
+        if ty[0] == "c" and ty[1] in LEN_DELIM_TYPES and se == ("c", False) and wr[0] == "c":
+            payload_int: Sym = ("call", N("len"), (t[2][2],), ()) if ty[1] == "bytes" and not wr[1] else ("call", N("_len_preprocessed_single"), (ty, wr, t[2][2]), ())
+            P = size_term(payload_int)
+            truth = True if wr[1] else val.get(("truthy-len", P))
+            if truth is False:
+                return _sum([])
+            if truth is True:
+                key = ("op", "|", ("op", "<<", t[2][0], ("c", 3)), ("c", 2))
+                return size_term(("op", "+", ("call", N("size_varint"), (key,), ()), ("call", N("size_varint"), (payload_int,), ()), payload_int))
+    return t
+
+
 def _under(val: Dict[Sym, bool], total: Sym) -> Sym:
     """length terms known to be zero under the valuation are dropped"""
+    total = _unfold_len_single(val, total)
     zero = []
     for k, b in val.items():
         if not b and isinstance(k, tuple) and k and k[0] == "truthy-len":
